@@ -41,37 +41,40 @@ theorem ite_some_eq {α : Type} {c : Bool} {a : Option α} {b : α}
 /-- Names the fields of a state: `cr cw cf co ce cl cs cx cm` (c2s side: reader, writer, failed,
     out, werr, leak, stalled, wfail, dmu), `sr … sm`, `dn clg wt rt scc ccc`. -/
 macro "destruct_sys" s:ident : tactic => `(tactic|
-  obtain ⟨⟨cr, cw, cf, co, ce, cl, cs, cx, cm⟩, ⟨sr, sw, sf, so, se, sl, ss, sx, sm⟩, dn, clg, wt, rt, scc, ccc⟩ := $s)
+  obtain ⟨⟨cr, cw, cf, co, ce, cl, cs, cx, cm, cq⟩, ⟨sr, sw, sf, so, se, sl, ss, sx, sm, sq⟩, dn, clg, wt, rt, scc, ccc⟩ := $s)
 
 macro "fin" : tactic => `(tactic| (simp [mu, Side.wt, Wr.wt, wt_lockWait, wt_pushing, wt_mWait, wt_mHold] <;> (repeat' split) <;> omega))
 
 theorem dec_rTake {s s' : Sys} {d : Dir} (h : step s (.rTake d) = some s') : mu s' < mu s := by
-  obtain ⟨⟨cr, cw, cf, co, ce, cl, cs, cx, cm⟩, ⟨sr, sw, sf, so, se, sl, ss, sx, sm⟩, dn, clg, wt, rt, scc, ccc⟩ := s
+  obtain ⟨⟨cr, cw, cf, co, ce, cl, cs, cx, cm, cq⟩, ⟨sr, sw, sf, so, se, sl, ss, sx, sm, sq⟩, dn, clg, wt, rt, scc, ccc⟩ := s
   cases d <;> simp only [step, Sys.side, Sys.setSide] at h <;> split at h <;> simp at h <;> subst h
   all_goals (rename_i r; have := wt_afterTake_lt .c2s r; have := wt_afterTake_lt .s2c r)
   all_goals (simp [mu, Side.wt]; omega)
 
 theorem dec_rWerr {s s' : Sys} {d : Dir} (h : step s (.rWerr d) = some s') : mu s' < mu s := by
-  obtain ⟨⟨cr, cw, cf, co, ce, cl, cs, cx, cm⟩, ⟨sr, sw, sf, so, se, sl, ss, sx, sm⟩, dn, clg, wt, rt, scc, ccc⟩ := s
+  obtain ⟨⟨cr, cw, cf, co, ce, cl, cs, cx, cm, cq⟩, ⟨sr, sw, sf, so, se, sl, ss, sx, sm, sq⟩, dn, clg, wt, rt, scc, ccc⟩ := s
   cases d <;> simp only [step, Sys.side, Sys.setSide] at h <;> have ⟨h1, h2⟩ := ite_some_eq h <;>
     simp at h2 <;> subst h2 <;> simp at h1 <;> have ⟨g1, g2⟩ := wt_inSelect_ge h1.1
   · cases hr : cr.isReading <;> simp [hr] at g2 <;> fin
   · cases hr : sr.isReading <;> simp [hr] at g2 <;> fin
 
 theorem dec_rDone {s s' : Sys} {d : Dir} (h : step s (.rDone d) = some s') : mu s' < mu s := by
-  obtain ⟨⟨cr, cw, cf, co, ce, cl, cs, cx, cm⟩, ⟨sr, sw, sf, so, se, sl, ss, sx, sm⟩, dn, clg, wt, rt, scc, ccc⟩ := s
+  obtain ⟨⟨cr, cw, cf, co, ce, cl, cs, cx, cm, cq⟩, ⟨sr, sw, sf, so, se, sl, ss, sx, sm, sq⟩, dn, clg, wt, rt, scc, ccc⟩ := s
   cases d <;> simp only [step, Sys.side, Sys.setSide] at h <;> have ⟨h1, h2⟩ := ite_some_eq h <;>
     simp at h2 <;> subst h2 <;> simp at h1 <;> have ⟨g1, g2⟩ := wt_inSelect_ge h1.1
   · cases hr : cr.isReading <;> simp [hr] at g2 <;> fin
   · cases hr : sr.isReading <;> simp [hr] at g2 <;> fin
 
 theorem dec_acquire {s s' : Sys} {d : Dir} (h : step s (.acquire d) = some s') : mu s' < mu s := by
-  obtain ⟨⟨cr, cw, cf, co, ce, cl, cs, cx, cm⟩, ⟨sr, sw, sf, so, se, sl, ss, sx, sm⟩, dn, clg, wt, rt, scc, ccc⟩ := s
-  cases d <;> simp only [step, Sys.side, Sys.setSide] at h <;> split at h <;> simp at h <;> obtain ⟨_, rfl⟩ := h
-  all_goals fin
+  obtain ⟨⟨cr, cw, cf, co, ce, cl, cs, cx, cm, cq⟩, ⟨sr, sw, sf, so, se, sl, ss, sx, sm, sq⟩, dn, clg, wt, rt, scc, ccc⟩ := s
+  cases d
+  · rcases cr with _ | r | ⟨t, n, b⟩ | ⟨t, n, b⟩ | ⟨t, k⟩ | ⟨t, k⟩ | _ | _ <;> (try cases t) <;>
+      simp [step, Sys.side, Sys.setSide] at h <;> obtain ⟨_, rfl⟩ := h <;> fin
+  · rcases sr with _ | r | ⟨t, n, b⟩ | ⟨t, n, b⟩ | ⟨t, k⟩ | ⟨t, k⟩ | _ | _ <;> (try cases t) <;>
+      simp [step, Sys.side, Sys.setSide] at h <;> obtain ⟨_, rfl⟩ := h <;> fin
 
 theorem dec_push {s s' : Sys} {d : Dir} (h : step s (.push d) = some s') : mu s' < mu s := by
-  obtain ⟨⟨cr, cw, cf, co, ce, cl, cs, cx, cm⟩, ⟨sr, sw, sf, so, se, sl, ss, sx, sm⟩, dn, clg, wt, rt, scc, ccc⟩ := s
+  obtain ⟨⟨cr, cw, cf, co, ce, cl, cs, cx, cm, cq⟩, ⟨sr, sw, sf, so, se, sl, ss, sx, sm, sq⟩, dn, clg, wt, rt, scc, ccc⟩ := s
   cases d
   · rcases cr with _ | r | ⟨t, n, b⟩ | ⟨t, n, b⟩ | ⟨t, k⟩ | ⟨t, k⟩ | _ | _ <;> simp [step, Sys.side] at h
     cases t <;> cases n <;> simp [Sys.setSide] at h <;> obtain ⟨_, rfl⟩ := h <;> fin
@@ -79,12 +82,15 @@ theorem dec_push {s s' : Sys} {d : Dir} (h : step s (.push d) = some s') : mu s'
     cases t <;> cases n <;> simp [Sys.setSide] at h <;> obtain ⟨_, rfl⟩ := h <;> fin
 
 theorem dec_release {s s' : Sys} {d : Dir} (h : step s (.release d) = some s') : mu s' < mu s := by
-  obtain ⟨⟨cr, cw, cf, co, ce, cl, cs, cx, cm⟩, ⟨sr, sw, sf, so, se, sl, ss, sx, sm⟩, dn, clg, wt, rt, scc, ccc⟩ := s
-  cases d <;> simp only [step, Sys.side, Sys.setSide] at h <;> split at h <;> simp at h <;> subst h
-  all_goals fin
+  obtain ⟨⟨cr, cw, cf, co, ce, cl, cs, cx, cm, cq⟩, ⟨sr, sw, sf, so, se, sl, ss, sx, sm, sq⟩, dn, clg, wt, rt, scc, ccc⟩ := s
+  cases d
+  · rcases cr with _ | r | ⟨t, n, b⟩ | ⟨t, n, b⟩ | ⟨t, k⟩ | ⟨t, k⟩ | _ | _ <;> simp [step, Sys.side] at h
+    cases t <;> cases n <;> cases b <;> simp [Sys.side, Sys.setSide] at h <;> subst h <;> fin
+  · rcases sr with _ | r | ⟨t, n, b⟩ | ⟨t, n, b⟩ | ⟨t, k⟩ | ⟨t, k⟩ | _ | _ <;> simp [step, Sys.side] at h
+    cases t <;> cases n <;> cases b <;> simp [Sys.side, Sys.setSide] at h <;> subst h <;> fin
 
 theorem dec_mAcquire {s s' : Sys} {d : Dir} (h : step s (.mAcquire d) = some s') : mu s' < mu s := by
-  obtain ⟨⟨cr, cw, cf, co, ce, cl, cs, cx, cm⟩, ⟨sr, sw, sf, so, se, sl, ss, sx, sm⟩, dn, clg, wt, rt, scc, ccc⟩ := s
+  obtain ⟨⟨cr, cw, cf, co, ce, cl, cs, cx, cm, cq⟩, ⟨sr, sw, sf, so, se, sl, ss, sx, sm, sq⟩, dn, clg, wt, rt, scc, ccc⟩ := s
   cases d
   · rcases cr with _ | r | ⟨t, n, b⟩ | ⟨t, n, b⟩ | ⟨t, k⟩ | ⟨t, k⟩ | _ | _ <;> (try cases t) <;>
       simp [step, Sys.side, Sys.setSide] at h <;> obtain ⟨_, rfl⟩ := h <;> cases k <;> fin
@@ -92,7 +98,7 @@ theorem dec_mAcquire {s s' : Sys} {d : Dir} (h : step s (.mAcquire d) = some s')
       simp [step, Sys.side, Sys.setSide] at h <;> obtain ⟨_, rfl⟩ := h <;> cases k <;> fin
 
 theorem dec_mDone {s s' : Sys} {d : Dir} (h : step s (.mDone d) = some s') : mu s' < mu s := by
-  obtain ⟨⟨cr, cw, cf, co, ce, cl, cs, cx, cm⟩, ⟨sr, sw, sf, so, se, sl, ss, sx, sm⟩, dn, clg, wt, rt, scc, ccc⟩ := s
+  obtain ⟨⟨cr, cw, cf, co, ce, cl, cs, cx, cm, cq⟩, ⟨sr, sw, sf, so, se, sl, ss, sx, sm, sq⟩, dn, clg, wt, rt, scc, ccc⟩ := s
   cases d
   · rcases cr with _ | r | ⟨t, n, b⟩ | ⟨t, n, b⟩ | ⟨t, k⟩ | ⟨t, k⟩ | _ | _ <;> (try cases t) <;>
       simp [step, Sys.side, Sys.setSide] at h <;> obtain ⟨_, rfl⟩ := h
@@ -104,35 +110,35 @@ theorem dec_mDone {s s' : Sys} {d : Dir} (h : step s (.mDone d) = some s') : mu 
     · have := wt_afterWrite_lt .s2c .s2c k sx; simp [mu, Side.wt]; omega
 
 theorem dec_handshake {s s' : Sys} {d : Dir} (h : step s (.handshake d) = some s') : mu s' < mu s := by
-  obtain ⟨⟨cr, cw, cf, co, ce, cl, cs, cx, cm⟩, ⟨sr, sw, sf, so, se, sl, ss, sx, sm⟩, dn, clg, wt, rt, scc, ccc⟩ := s
+  obtain ⟨⟨cr, cw, cf, co, ce, cl, cs, cx, cm, cq⟩, ⟨sr, sw, sf, so, se, sl, ss, sx, sm, sq⟩, dn, clg, wt, rt, scc, ccc⟩ := s
   cases d <;> simp only [step, Sys.side, Sys.setSide] at h <;> split at h <;> simp at h <;> obtain ⟨_, rfl⟩ := h
   all_goals fin
 
 theorem dec_wTake {s s' : Sys} {d : Dir} (h : step s (.wTake d) = some s') : mu s' < mu s := by
-  obtain ⟨⟨cr, cw, cf, co, ce, cl, cs, cx, cm⟩, ⟨sr, sw, sf, so, se, sl, ss, sx, sm⟩, dn, clg, wt, rt, scc, ccc⟩ := s
+  obtain ⟨⟨cr, cw, cf, co, ce, cl, cs, cx, cm, cq⟩, ⟨sr, sw, sf, so, se, sl, ss, sx, sm, sq⟩, dn, clg, wt, rt, scc, ccc⟩ := s
   cases d <;> simp only [step, Sys.side, Sys.setSide] at h <;> have ⟨h1, h2⟩ := ite_some_eq h
   · cases cf <;> simp at h2 <;> subst h2 <;> simp at h1 <;> obtain ⟨⟨_, rfl⟩, _⟩ := h1 <;> fin
   · cases sf <;> simp at h2 <;> subst h2 <;> simp at h1 <;> obtain ⟨⟨_, rfl⟩, _⟩ := h1 <;> fin
 
 theorem dec_wLock {s s' : Sys} {d : Dir} (h : step s (.wLock d) = some s') : mu s' < mu s := by
-  obtain ⟨⟨cr, cw, cf, co, ce, cl, cs, cx, cm⟩, ⟨sr, sw, sf, so, se, sl, ss, sx, sm⟩, dn, clg, wt, rt, scc, ccc⟩ := s
+  obtain ⟨⟨cr, cw, cf, co, ce, cl, cs, cx, cm, cq⟩, ⟨sr, sw, sf, so, se, sl, ss, sx, sm, sq⟩, dn, clg, wt, rt, scc, ccc⟩ := s
   cases d <;> simp only [step, Sys.side, Sys.setSide] at h <;> have ⟨h1, h2⟩ := ite_some_eq h <;>
     simp at h2 <;> subst h2 <;> simp at h1 <;> obtain ⟨rfl, _⟩ := h1 <;> fin
 
 theorem dec_wDone {s s' : Sys} {d : Dir} (h : step s (.wDone d) = some s') : mu s' < mu s := by
-  obtain ⟨⟨cr, cw, cf, co, ce, cl, cs, cx, cm⟩, ⟨sr, sw, sf, so, se, sl, ss, sx, sm⟩, dn, clg, wt, rt, scc, ccc⟩ := s
+  obtain ⟨⟨cr, cw, cf, co, ce, cl, cs, cx, cm, cq⟩, ⟨sr, sw, sf, so, se, sl, ss, sx, sm, sq⟩, dn, clg, wt, rt, scc, ccc⟩ := s
   cases d <;> simp only [step, Sys.side, Sys.setSide] at h <;> have ⟨h1, h2⟩ := ite_some_eq h
   · cases cx <;> simp at h2 <;> subst h2 <;> simp at h1 <;> (try obtain ⟨rfl, _⟩ := h1) <;> (try subst h1) <;> fin
   · cases sx <;> simp at h2 <;> subst h2 <;> simp at h1 <;> (try obtain ⟨rfl, _⟩ := h1) <;> (try subst h1) <;> fin
 
 theorem dec_rfClosed {s s' : Sys} {d : Dir} (h : step s (.rfClosed d) = some s') : mu s' < mu s := by
-  obtain ⟨⟨cr, cw, cf, co, ce, cl, cs, cx, cm⟩, ⟨sr, sw, sf, so, se, sl, ss, sx, sm⟩, dn, clg, wt, rt, scc, ccc⟩ := s
+  obtain ⟨⟨cr, cw, cf, co, ce, cl, cs, cx, cm, cq⟩, ⟨sr, sw, sf, so, se, sl, ss, sx, sm, sq⟩, dn, clg, wt, rt, scc, ccc⟩ := s
   cases d <;> simp only [step, Sys.side, Sys.setSide, srcClosed] at h <;> have ⟨h1, h2⟩ := ite_some_eq h <;>
     simp at h2 <;> subst h2 <;> simp at h1 <;> simp [h1.1] <;> fin
 
 theorem dec_misc {s s' : Sys} {l : Label} (hl : l = .watchClosing ∨ l = .watchDone ∨ l = .ret)
     (h : step s l = some s') : mu s' < mu s := by
-  obtain ⟨⟨cr, cw, cf, co, ce, cl, cs, cx, cm⟩, ⟨sr, sw, sf, so, se, sl, ss, sx, sm⟩, dn, clg, wt, rt, scc, ccc⟩ := s
+  obtain ⟨⟨cr, cw, cf, co, ce, cl, cs, cx, cm, cq⟩, ⟨sr, sw, sf, so, se, sl, ss, sx, sm, sq⟩, dn, clg, wt, rt, scc, ccc⟩ := s
   rcases hl with rfl | rfl | rfl <;> simp only [step] at h <;> have ⟨h1, h2⟩ := ite_some_eq h <;>
     simp at h2 <;> subst h2 <;> simp at h1 <;> simp [mu, Side.wt, h1]
 
@@ -166,7 +172,27 @@ def Good (s : Sys) : Prop :=
   (s.s.r.holdsDest .c2s = true ↔ s.c.dmu = some .peer) ∧
   (s.s.w = .hold ↔ s.s.dmu = some .writer) ∧ (s.s.r.holdsDest .s2c = true ↔ s.s.dmu = some .own) ∧
   (s.c.r.holdsDest .s2c = true ↔ s.s.dmu = some .peer) ∧
-  (s.c.r = .gone → s.c.w = .idle) ∧ (s.s.r = .gone → s.s.w = .idle)
+  (s.c.r = .gone → s.c.w = .idle) ∧ (s.s.r = .gone → s.s.w = .idle) ∧
+  (s.c.r.isPushing .c2s = true ↔ s.c.fmu = some .c2s) ∧ (s.s.r.isPushing .c2s = true ↔ s.c.fmu = some .s2c) ∧
+  (s.c.r.isPushing .s2c = true ↔ s.s.fmu = some .c2s) ∧ (s.s.r.isPushing .s2c = true ↔ s.s.fmu = some .s2c)
+
+@[simp] theorem isPushing_selReading (u) : Rd.selReading.isPushing u = false := rfl
+@[simp] theorem isPushing_selReady (r u) : (Rd.selReady r).isPushing u = false := rfl
+@[simp] theorem isPushing_lockWait (t n b u) : (Rd.lockWait t n b).isPushing u = false := rfl
+@[simp] theorem isPushing_pushing (t n b u) : (Rd.pushing t n b).isPushing u = (t == u) := rfl
+@[simp] theorem isPushing_mWait (t k u) : (Rd.mWait t k).isPushing u = false := rfl
+@[simp] theorem isPushing_mHold (t k u) : (Rd.mHold t k).isPushing u = false := rfl
+@[simp] theorem isPushing_exiting (u) : Rd.exiting.isPushing u = false := rfl
+@[simp] theorem isPushing_gone (u) : Rd.gone.isPushing u = false := rfl
+
+theorem afterTake_isPushing (d t : Dir) (r : Res) : (afterTake d r).isPushing t = false := by
+  rcases r with (w | _ | _)
+  · rcases w with (n | n | n | n | _ | _ | _)
+    all_goals simp [afterTake]
+  all_goals simp [afterTake]
+
+theorem afterWrite_isPushing (d t : Dir) (k : Option Nat) (f : Bool) : (afterWrite d k f).isPushing t = false := by
+  cases k <;> cases f <;> simp [afterWrite]
 
 @[simp] theorem holdsDest_selReading (u) : Rd.selReading.holdsDest u = false := rfl
 @[simp] theorem holdsDest_selReady (r u) : (Rd.selReady r).holdsDest u = false := rfl
@@ -230,10 +256,8 @@ macro "step_cases" c:tactic : tactic => `(tactic| (
     · rd_cases sr <;> simp [step, Sys.side, Sys.setSide, Rd.inSelect] at h <;> obtain ⟨_, rfl⟩ := h <;> $c
   case acquire d =>
     cases d
-    · rd_cases cr <;> simp [step, Sys.side, Sys.setSide] at h
-      obtain ⟨_, rfl⟩ := h; $c
-    · rd_cases sr <;> simp [step, Sys.side, Sys.setSide] at h
-      obtain ⟨_, rfl⟩ := h; $c
+    · rd_cases cr <;> (try cases t) <;> simp [step, Sys.side, Sys.setSide] at h <;> obtain ⟨_, rfl⟩ := h <;> $c
+    · rd_cases sr <;> (try cases t) <;> simp [step, Sys.side, Sys.setSide] at h <;> obtain ⟨_, rfl⟩ := h <;> $c
   case push d =>
     cases d
     · rd_cases cr <;> simp [step, Sys.side] at h
@@ -242,10 +266,10 @@ macro "step_cases" c:tactic : tactic => `(tactic| (
       cases t <;> cases n <;> simp [Sys.setSide] at h <;> obtain ⟨_, rfl⟩ := h <;> $c
   case release d =>
     cases d
-    · rd_cases cr <;> simp [step, Sys.side, Sys.setSide] at h
-      cases n <;> cases b <;> simp at h <;> subst h <;> $c
-    · rd_cases sr <;> simp [step, Sys.side, Sys.setSide] at h
-      cases n <;> cases b <;> simp at h <;> subst h <;> $c
+    · rd_cases cr <;> simp [step, Sys.side] at h
+      cases t <;> cases n <;> cases b <;> simp [Sys.side, Sys.setSide] at h <;> subst h <;> $c
+    · rd_cases sr <;> simp [step, Sys.side] at h
+      cases t <;> cases n <;> cases b <;> simp [Sys.side, Sys.setSide] at h <;> subst h <;> $c
   case mAcquire d =>
     cases d
     · rd_cases cr <;> (try cases t) <;> simp [step, Sys.side, Sys.setSide] at h <;> obtain ⟨_, rfl⟩ := h <;> $c
@@ -278,10 +302,10 @@ macro "step_cases" c:tactic : tactic => `(tactic| (
 
 macro "gfin" : tactic => `(tactic| (
   simp [Good, holderOf, afterTake_ne_gone, afterTake_holdsDest,
-    afterWrite_ne_gone, afterWrite_holdsDest] at * <;> (try simp_all) <;> (try grind)))
+    afterWrite_ne_gone, afterWrite_holdsDest, afterTake_isPushing, afterWrite_isPushing] at * <;> (try simp_all) <;> (try grind)))
 
 theorem good_step {s s' : Sys} {l : Label} (hg : Good s) (h : step s l = some s') : Good s' := by
-  obtain ⟨⟨cr, cw, cf, co, ce, cl, cs, cx, cm⟩, ⟨sr, sw, sf, so, se, sl, ss, sx, sm⟩, dn, clg, wt, rt, scc, ccc⟩ := s
+  obtain ⟨⟨cr, cw, cf, co, ce, cl, cs, cx, cm, cq⟩, ⟨sr, sw, sf, so, se, sl, ss, sx, sm, sq⟩, dn, clg, wt, rt, scc, ccc⟩ := s
   step_cases gfin
 
 /-! ### Deadlock characterisation
@@ -330,10 +354,19 @@ theorem good_dmu {s : Sys} (hg : Good s) (t : Dir) :
     ((s.side t).w = .hold ↔ (s.side t).dmu = some .writer) ∧
     ((s.side t).r.holdsDest t = true ↔ (s.side t).dmu = some .own) ∧
     ((s.side t.other).r.holdsDest t = true ↔ (s.side t).dmu = some .peer) := by
-  obtain ⟨_, _, _, _, _, a1, a2, a3, b1, b2, b3, _, _⟩ := hg
+  obtain ⟨_, _, _, _, _, a1, a2, a3, b1, b2, b3, _, _, _⟩ := hg
   cases t
   · exact ⟨a1, a2, a3⟩
   · exact ⟨b1, b2, b3⟩
+
+theorem good_fmu {s : Sys} (hg : Good s) (t o : Dir) :
+    (s.side o).r.isPushing t = true ↔ (s.side t).fmu = some o := by
+  obtain ⟨_, _, _, _, _, _, _, _, _, _, _, _, _, f1, f2, f3, f4⟩ := hg
+  cases t <;> cases o
+  · exact f1
+  · exact f2
+  · exact f3
+  · exact f4
 
 /-- Nothing stalled and nothing enabled: every `destMu` is free. -/
 theorem q_dmu_free {s : Sys} (hg : Good s) (hq : quiescent s = true) (hu : unstalled s = true) (t : Dir) :
@@ -402,18 +435,15 @@ theorem f10cBlockedAt_imp {s : Sys} {d : Dir} (h : f10cBlockedAt s d = true) : f
 theorem q_no_lockWait {s : Sys} (hg : Good s) (hq : quiescent s = true) (hu : unstalled s = true)
     (hf : f10cBlocked s = false) (d t : Dir) (n : Nat) (b : Bool) : (s.side d).r ≠ .lockWait t n b := by
   intro h
-  have hfree : lockHeld s t = false := by
-    cases hl : lockHeld s t
-    · rfl
-    · exfalso
-      simp [lockHeld] at hl
-      rcases hl with hl | hl
-      · cases hc : s.c.r <;> simp [hc, Rd.isPushing] at hl
-        rename_i t' n' b'
-        have := f10cBlockedAt_imp (q_pushing_f10c hg hq hu .c2s t' n' b' hc); simp [hf] at this
-      · cases hc : s.s.r <;> simp [hc, Rd.isPushing] at hl
-        rename_i t' n' b'
-        have := f10cBlockedAt_imp (q_pushing_f10c hg hq hu .s2c t' n' b' hc); simp [hf] at this
+  have hfree : (s.side t).fmu = none := by
+    cases hl : (s.side t).fmu with
+    | none => rfl
+    | some o =>
+      exfalso
+      have ho : (s.side o).r.isPushing t = true := (good_fmu hg t o).mpr hl
+      cases hc : (s.side o).r <;> simp [hc] at ho
+      rename_i t' n' b'
+      have := f10cBlockedAt_imp (q_pushing_f10c hg hq hu o t' n' b' hc); simp [hf] at this
   have := q_none hq (l := .acquire d) (by cases d <;> decide)
   simp [step, h, hfree] at this
 
@@ -486,12 +516,12 @@ theorem terminal_afterTake (d : Dir) (r : Res) : (afterTake d r).terminal = (Rd.
 
 theorem termed_stable {s s' : Sys} {l : Label} (ht : termed s = true) (h : step s l = some s') :
     termed s' = true := by
-  obtain ⟨⟨cr, cw, cf, co, ce, cl, cs, cx, cm⟩, ⟨sr, sw, sf, so, se, sl, ss, sx, sm⟩, dn, clg, wt, rt, scc, ccc⟩ := s
+  obtain ⟨⟨cr, cw, cf, co, ce, cl, cs, cx, cm, cq⟩, ⟨sr, sw, sf, so, se, sl, ss, sx, sm, sq⟩, dn, clg, wt, rt, scc, ccc⟩ := s
   step_cases ((try simp [termed, terminal_afterTake] at ht ⊢) <;> (try grind))
 
 theorem unstalled_proc {s s' : Sys} {l : Label} (hp : l.isProc = true) (h : step s l = some s') :
     unstalled s' = unstalled s := by
-  obtain ⟨⟨cr, cw, cf, co, ce, cl, cs, cx, cm⟩, ⟨sr, sw, sf, so, se, sl, ss, sx, sm⟩, dn, clg, wt, rt, scc, ccc⟩ := s
+  obtain ⟨⟨cr, cw, cf, co, ce, cl, cs, cx, cm, cq⟩, ⟨sr, sw, sf, so, se, sl, ss, sx, sm, sq⟩, dn, clg, wt, rt, scc, ccc⟩ := s
   step_cases ((try simp [Label.isProc] at hp) <;> (try simp [unstalled]))
 
 theorem noPeer_afterTake (d : Dir) (r : Res) (h : (Rd.selReady r).noPeer d = true) : (afterTake d r).noPeer d = true := by
@@ -513,12 +543,12 @@ theorem noPeer_afterWrite (d : Dir) (k : Option Nat) (f : Bool) : (afterWrite d 
 
 theorem noPeer_proc {s s' : Sys} {l : Label} (hp : l.isProc = true) (hn : noPeer s = true)
     (h : step s l = some s') : noPeer s' = true := by
-  obtain ⟨⟨cr, cw, cf, co, ce, cl, cs, cx, cm⟩, ⟨sr, sw, sf, so, se, sl, ss, sx, sm⟩, dn, clg, wt, rt, scc, ccc⟩ := s
+  obtain ⟨⟨cr, cw, cf, co, ce, cl, cs, cx, cm, cq⟩, ⟨sr, sw, sf, so, se, sl, ss, sx, sm, sq⟩, dn, clg, wt, rt, scc, ccc⟩ := s
   step_cases ((try simp [Label.isProc] at hp) <;> (try simp [noPeer, noPeer_afterWrite] at hn ⊢) <;>
     (try (have := noPeer_afterTake .c2s r; have := noPeer_afterTake .s2c r)) <;> (try grind))
 
 theorem f10c_not_noPeer {s : Sys} (h : f10cBlocked s = true) : noPeer s = false := by
-  obtain ⟨⟨cr, cw, cf, co, ce, cl, cs, cx, cm⟩, ⟨sr, sw, sf, so, se, sl, ss, sx, sm⟩, dn, clg, wt, rt, scc, ccc⟩ := s
+  obtain ⟨⟨cr, cw, cf, co, ce, cl, cs, cx, cm, cq⟩, ⟨sr, sw, sf, so, se, sl, ss, sx, sm, sq⟩, dn, clg, wt, rt, scc, ccc⟩ := s
   simp [f10cBlocked, f10cBlockedAt, Sys.side] at h
   rcases h with h | h
   · rd_cases cr <;> (try (simp at h; done))
